@@ -185,9 +185,9 @@ Print Assumptions C09_prefix_renaming_side_condition_needed.
    QName content re-spelled consistently with the renamed map (other prefix, default-namespace
    spelling, XSD padding) denotes the same name: *)
 Theorem C09_qname_respelling_partial : forall po po' local m m' a b a' b',
-  ConvQName.is_ncname local = true ->
-  match po with None => True | Some p => ConvQName.is_ncname p = true end ->
-  match po' with None => True | Some p => ConvQName.is_ncname p = true end ->
+  good_name local = true ->
+  good_prefix po ->
+  good_prefix po' ->
   forallb xml_ws a = true -> forallb xml_ws b = true -> forallb xml_ws a' = true -> forallb xml_ws b' = true ->
   norm_uri (ns_get po m) = norm_uri (ns_get po' m') ->
   (norm_uri (ns_get po m) <> None \/ (po = None /\ po' = None)) ->
@@ -196,9 +196,9 @@ Proof. exact qname_respelling. Qed.
 Print Assumptions C09_qname_respelling_partial.
 
 Theorem C09_xsi_type_respelling_partial : forall po po' local m m' attrs attrs',
-  ConvQName.is_ncname local = true ->
-  match po with None => True | Some p => ConvQName.is_ncname p = true end ->
-  match po' with None => True | Some p => ConvQName.is_ncname p = true end ->
+  good_name local = true ->
+  good_prefix po ->
+  good_prefix po' ->
   assoc XSI_TYPE attrs = Some (qlex po local) -> assoc XSI_TYPE attrs' = Some (qlex po' local) ->
   norm_uri (ns_get po m) = norm_uri (ns_get po' m') ->
   (norm_uri (ns_get po m) <> None \/ (po = None /\ po' = None)) ->
@@ -308,7 +308,7 @@ Theorem C09_float_padding : forall d a b,
 Proof. exact float_padding. Qed.
 
 Theorem C09_qname_padding : forall q env a b v,
-  wf_qname q = true -> val_qname env q = Some v -> qname_sp_py_guard q = true ->
+  wf_qname q = true -> val_qname env q = Some v -> qname_sp_edge_guard q = true ->
   forallb xml_ws a = true -> forallb xml_ws b = true ->
   ConvQName.qname_deser (a ++ lex_qname q ++ b) (Some env) = ConvQName.qname_deser (lex_qname q) (Some env).
 Proof. exact qname_padding. Qed.
